@@ -13,6 +13,8 @@ PROFILE = gen.Profile(
     providers=("machine", "model", "L0", "L1", "L2"),
     p_nested=0.15, p_raise=0.05, p_validator_raise=0.1, p_unknown_event=0.05, n_ops=(4, 12),
     p_rtc_off=0.2, p_allow=0.3,
+    # the record is reloaded behind the machine's back: a late listener hears the states the machine had left too
+    p_write=0.08,
 )
 PROFILE_ASYNC = gen.Profile(**{**PROFILE.__dict__, "p_coro": 0.4, "drivers": ("facade", "loop"), "p_rtc_off": 0.0})
 
